@@ -14,6 +14,7 @@ ALL = [("G06_datachecker", "tools.tr.tr_datachecker", "write"),
        ("G03_recv", "tools.tr.tr_recv", "write"),
        ("G09_rules", "tools.tr.tr_reclaim", "write"),
        ("G13_lan", "tools.tr.tr_lan", "write"),
+       ("G13_introduction", "tools.tr.tr_introduction", "write"),
        ("G15_consts", "tools.tr.tr_dht_consts", "write"),
        ("G15_handlers", "tools.tr.tr_dht_handlers", "write"),
        ("G19_db", "tools.tr.tr_db", "write"),
@@ -30,7 +31,8 @@ ALL = [("G06_datachecker", "tools.tr.tr_datachecker", "write"),
        ("G17_consent", "tools.tr.tr_consent", "write"),
        ("G20_vp", "tools.tr.tr_vp", "write"),
        ("G12_network", "tools.tr.tr_network", "write"),
-       ("G08_handshake", "tools.tr.tr_handshake", "write")]
+       ("G08_handshake", "tools.tr.tr_handshake", "write"),
+       ("G04_onion", "tools.tr.tr_onion", "write")]
 
 
 def main():
